@@ -1,6 +1,8 @@
 ENGINES = [
+    {'name': 'kani', 'path': '/verif/kani', 'serves_properties': ['C02', 'C05'],
+     'kind_free_text': 'Kani 0.68 / CBMC harness crate with a path dependency on /repo: proof harnesses over the scalar kernels (LineRange::{contains, overlaps, shift}, LineAttribution / Attribution intersection), run by the same ./check as a second opinion for the MIR engine'},
     {'name': 'mirsym', 'path': '/verif/mirsym',
-     'serves_properties': ['C01', 'C03', 'C04', 'C05', 'C07', 'C09', 'C12', 'C16', 'C17', 'C18', 'C19'],
+     'serves_properties': ['C01', 'C02', 'C03', 'C04', 'C05', 'C06', 'C07', 'C08', 'C09', 'C14', 'C12', 'C16', 'C17', 'C18', 'C19'],
      'kind_free_text': 'symbolic executor over the MIR that rustc emits for /repo\'s working tree (regenerated per tree state); std modelled at the call boundary; z3 QF_BV decides every branch and every obligation; counterexamples replayed natively through /verif/replay'},
 ]
 NOTES = 'Every check: exit 0 = held for all inputs inside the stated bounds (KNOWN-FINDING lines allowed); exit 1 = natively reproducing violation; exit 2 = inconclusive (unsupported construct, solver unknown, model/native mismatch, vacuous harness) and is never reported as a pass.'
@@ -72,10 +74,34 @@ CHECKS['C07'] = {
     'note': 'crash points inside a write, the catch_unwind guard and the pre-commit refusal in handle_git, and containment of failing internal git calls (K4) are not encoded; serde_json is the codec model',
     'technique': 'MIR symbolic execution + z3 (bounded) over a fault-injecting model file system, native replay',
 }
+CHECKS['C02'] = {
+    'text': 'Narrow claim: failed and dry-run operations are inert. Bounded symbolic execution of the real post-command hooks of commit, reset, checkout, switch, stash, merge and pull with a symbolic non-zero exit status / death by signal (commit and merge also with status 0 and --dry-run): on every path the hook returns without crossing the boundary behind which every note, working-log, INITIAL and journal mutator lives. LineRange::shift (used by the note-shifting helpers) never yields an inverted range, is the identity below the insertion point and moves by exactly the offset at/after it — decided by both engines (MIR executor and Kani, full u32/i32 domain).',
+    'design_ref': 'DESIGN.md §4 C02',
+    'note': 'everything about commit graphs, conflicts, todo lists and stash layouts is decided by git and is outside; rebase / cherry-pick hooks are outside (they may journal an Abort event)',
+    'technique': 'MIR symbolic execution + z3 with an effect boundary; Kani/CBMC on LineRange::shift; native replay',
+}
+CHECKS['C06'] = {
+    'text': 'Narrow claim: the hand-off. Bounded symbolic execution of the real proxy_to_git with std::process::Command as a recorder: for every argv inside the bounds, hooks-path override, tty state and child outcome, exactly one child (the configured git) is spawned, its argv is the given vector verbatim preceded by `-c core.hooksPath=<p>` exactly when an override is present and the user passed none of the three spellings himself, stdio and cwd are inherited, the only environment change is the skip-managed-hooks marker, the returned status is the child\'s, and failing to run git exits 1.',
+    'design_ref': 'DESIGN.md §4 C06',
+    'note': 'equality of HEAD/refs/index/worktree/stdout with a twin repository is behaviour of git and of hook side effects — not encodable, not claimed',
+    'technique': 'MIR symbolic execution + z3 with a process recorder, native replay with a recording stand-in for git',
+}
+CHECKS['C08'] = {
+    'text': 'Narrow claim: the storage-mode dispatch of the commit path. Bounded symbolic execution of the real post_commit up to the note write with the producers, config, login state, redaction, CAS enqueue and notes_add as environment models: for every mode, login state, API URL and CAS outcome, no conversation text (symbolic) is in the note unless the mode is Notes; in Notes mode and before any upload the redaction ran first.',
+    'design_ref': 'DESIGN.md §4 C08',
+    'note': 'entropy-based secret redaction (floating point) is not applicable to this family; the amend path and Config::effective_prompt_storage are outside; counterexamples cannot be replayed natively (reported as inconclusive)',
+    'technique': 'MIR symbolic execution + z3 with environment models',
+}
+CHECKS['C14'] = {
+    'text': 'Kernel claim. Bounded symbolic execution of the real per-file checkpoint step: with the file\'s latest entry present and the snapshot equal to the (symbolic) current content the step yields no entry for every kind / pre-commit flag / INITIAL presence / AI-touched membership / feature flag, never consulting HEAD; a changed content under an AI checkpoint yields an entry for that file with the new snapshot hash that credits the reporting session; pruning keeps exactly the newest entry\'s character ranges and selection picks that entry; human-only checkpoints never make a file AI-touched. Identical text keeping every line\'s author is decided under C16.',
+    'design_ref': 'DESIGN.md §4 C14',
+    'note': 'splitting an edit into several checkpoints and checkpoint::run as a whole are outside',
+    'technique': 'MIR symbolic execution + z3 over a model file system, native replay on a scratch repository',
+}
 _PENDING = 'check not built yet in this round (under construction; see DESIGN.md §4)'
 NOT_APPLICABLE = {
-    'C02': _PENDING,  'C06': _PENDING,
-     'C08': _PENDING,  'C14': _PENDING, 'C15': _PENDING,
+      
+        'C15': _PENDING,
     'C20': _PENDING,
     'C10': 'convergence of notes across clones is decided by git\'s notes-merge / ref-transaction semantics over several repositories; git-ai\'s part is a fixed sequence of subprocess calls with no branch the solver could decide (DESIGN.md §7)',
     'C11': 'interleavings of processes over a file system and git ref locks; neither Kani nor the MIR executor models OS-level concurrency (DESIGN.md §7)',
